@@ -22,8 +22,8 @@ EXTENDS Naturals, Integers, Sequences, FiniteSets, TLC
 
 SlackMs == 1000   \* scheduling slack granted to wall-clock deadlines on real threads (C17)
 
-MsgKindsM  == {"tell","ask","tellT","askT"}
-AskKindsM  == {"ask","askT"}
+MsgKindsM  == {"tell","ask","tellT","askT","askJ"}   \* askJ = ask_join
+AskKindsM  == {"ask","askT","askJ"}
 TellKindsM == {"tell","tellT"}
 TimedKindsM == {"tellT","askT"}
 
@@ -52,7 +52,7 @@ NoActM ==
    tellPending |-> 0]              \* tell handler finished, on_tell_result not seen yet (message id)
 
 NoOpM == [own |-> "", kind |-> "", a |-> "", m |-> 0, d |-> 0, stNow |-> 0,
-          done |-> FALSE, res |-> "", dls |-> <<>>, afterJoin |-> FALSE, mustPanic |-> FALSE,
+          done |-> FALSE, res |-> "", dls |-> <<>>, afterJoin |-> FALSE, mustPanic |-> FALSE, jp |-> FALSE,
           acc |-> FALSE]
 
 NoMsgM == [op |-> 0, a |-> "", handled |-> 0, acc |-> FALSE, preStop |-> FALSE, postStop |-> FALSE,
@@ -136,6 +136,7 @@ OnOpStart(mon, ev) ==
       cyc == mon.dd /\ nested /\ ev.kind \in AskKindsM
              /\ (ev.own = ev.a \/ Reaches(mon, ev.a, ev.own, Cardinality(DOMAIN mon.act) + 1))
       m1 == UpdO(mon, ev.op, [own |-> ev.own, kind |-> ev.kind, a |-> ev.a, m |-> ev.m, d |-> ev.d,
+                              jp |-> IF "jp" \in DOMAIN ev THEN ev.jp ELSE FALSE,
                               stNow |-> ev.now, afterJoin |-> A.joined, mustPanic |-> cyc])
       m2 == IF isMsg
               THEN UpdM(m1, ev.m, [op |-> ev.op, a |-> ev.a, before |-> {x \in MsgsTo(mon, ev.a) : mon.msgs[x].acc},
@@ -209,7 +210,11 @@ OnOpEnd(mon, ev) ==
            \cup B(op.kind = "kill" /\ ev.res # "ok", "C06", "kill() failed")
            \* C11
            \cup B(isMsg /\ op.afterJoin /\ ev.res # "send", "C11", "send to an ended actor did not fail")
-           \cup B(ev.res \notin {"ok","send","timeout","recv"}, "C03", "unexpected error kind")
+           \cup B(ev.res \notin {"ok","send","timeout","recv","join"}, "C03", "unexpected error kind")
+           \* ask_join returns exactly the output, or the join error, of the task the handler spawned
+           \cup B(ev.res = "join" /\ ~(op.kind = "askJ" /\ op.jp), "C03", "join error although the spawned task did not fail")
+           \cup B(op.kind = "askJ" /\ ev.res = "ok" /\ op.jp, "C03", "ask_join returned a value although the spawned task panicked")
+           \cup B(op.kind = "askJ" /\ ev.res = "recv" /\ M.replied, "C03", "ask_join did not return the outcome of the task its handler spawned")
       m1 == [mon EXCEPT !.ops = Put(mon.ops, ev.op, op)]
       m2 == IF isMsg /\ (ev.res = "send" \/ (ev.res = "timeout" /\ op.kind = "tellT"))
               THEN UpdM(m1, op.m, [rejected |-> TRUE]) ELSE m1
